@@ -60,6 +60,7 @@ func cmdSinkFaults(f hx.Flags, r *hx.Result) {
 			return err
 		}
 		n++
+		log.VerifNow = nil
 		dir := filepath.Join(tmp, fmt.Sprintf("s%d", n))
 		_ = os.MkdirAll(dir, 0o755)
 		defer os.RemoveAll(dir)
@@ -78,8 +79,15 @@ func cmdSinkFaults(f hx.Flags, r *hx.Result) {
 			app = fa
 		case "rolling":
 			ra := &log.RollingFileAppender{Layout: layout, FileDir: dir, FileName: "s.log", Rotation: log.TimeRotation{Interval: time.Hour}, MaxAge: 1000}
-			if c.Target0 == "missing" {
+			switch c.Target0 {
+			case "missing":
 				ra.FileDir = filepath.Join(dir, "nope")
+			case "failing":
+				// the clock is fixed, so the name of the file the appender opens is known: it is a link to /dev/full,
+				// which accepts the open and rejects every write (ENOSPC)
+				fixed := time.Date(2034, 5, 6, 7, 0, 0, 0, time.UTC)
+				log.VerifNow = func(time.Time) time.Time { return fixed }
+				_ = os.Symlink("/dev/full", filepath.Join(dir, "s.log."+fixed.Format("20060102150405")))
 			}
 			app = ra
 		default:
